@@ -36,6 +36,7 @@ class Rec(BaseWriter):
 
     def __init__(self):
         self.chunks: List[bytes] = []
+        self.setup_text = ""
 
     def connect(self):
         return self
@@ -55,6 +56,7 @@ class Rec(BaseWriter):
 
 DEFAULT_PRE: Dict[str, Any] = dict(
     pos=(None, None, None),      # builder position (core and state copies)
+    mknown=(True, True, True),   # does the machine know the axis (only where pos is not None)
     fresh=False,                 # True: never moved (state.position is 0,0,0)
     relative=False,
     feed=0,
@@ -108,6 +110,7 @@ def build(pre: Dict[str, Any], via: str = "private"):
         diff = diff_snapshots(a, b, ignore=("params_xyz",))
         if diff:
             raise Unreachable(f"public construction differs from requested pre-state: {diff}")
+    rec.setup_text = rec.text()
     rec.clear()
     return g, rec
 
@@ -166,8 +169,19 @@ def _install_public(g: GCodeBuilder, pre) -> None:
         if pre["tool_swap"] != "off":
             g.tool_change(pre["tool_swap"], pre["tool_number"])
         if not pre["fresh"]:
-            x, y, z = pre["pos"]
-            g.set_axis(x=x, y=y, z=z, **pre["params"])
+            pos, mk = pre["pos"], pre["mknown"]
+            # axes the builder has a number for but the machine does not know:
+            # a relative move from the unknown start (builder assumes 0, machine stays unknown)
+            drift = {a: v for a, v, k in zip("xyz", pos, mk) if v is not None and not k}
+            if drift:
+                g.set_distance_mode("relative")
+                g.move(**drift)
+                g.set_distance_mode("absolute")
+            sync = {a: v for a, v, k in zip("xyz", pos, mk) if v is not None and k}
+            g.set_axis(**sync, **pre["params"])
+            lost = {a: 0 for a, v in zip("xyz", pos) if v is None}
+            if lost and (drift or sync):
+                g.auto_home(**lost)
         elif pre["params"]:
             raise Unreachable("fresh state has no remembered parameters")
         if pre["relative"]:
